@@ -96,10 +96,11 @@ pub fn book_orders(b: Book) -> Vec<Ord_> {
         Book::B4 => vec![mk_ts(Tmpl::RSn, 1, p, 1), mk_ts(Tmpl::S5, 2, p, 2)],
         Book::B6 => vec![mk_ts(Tmpl::IC23, 1, p, 1), mk_ts(Tmpl::RS36, 2, p, 2)],
         Book::B8 => vec![mk_ts(Tmpl::RSh, 1, p, 1), mk_ts(Tmpl::S5, 2, p, 2)],
+        // #2 and #3 share their timestamp (a tie in every listing)
         Book::B12 => vec![
             mk_ts(Tmpl::IC02, 1, p, 1),
             mk_ts(Tmpl::S5, 2, p, 2),
-            mk_ts(Tmpl::S3, 3, p, 3),
+            mk_ts(Tmpl::S3, 3, p, 2),
         ],
         Book::B9 | Book::B10 => (0..70).map(|i| crate::seq_level::bulk_order(i, p)).collect(),
         Book::B11 => vec![
